@@ -10,6 +10,7 @@ import (
 	"github.com/PowerDNS/lightningstream/config"
 	"github.com/PowerDNS/lightningstream/snapshot"
 	"github.com/PowerDNS/lightningstream/utils"
+	"github.com/PowerDNS/lightningstream/utils/vhook"
 	"github.com/PowerDNS/simpleblob"
 	"github.com/samber/lo"
 	"github.com/sirupsen/logrus"
@@ -76,6 +77,7 @@ func (w *Worker) Run(ctx context.Context) error {
 		if err != nil {
 			w.l.WithError(err).Warn("Clean run failed")
 		}
+		vhook.At(w.name, "clean.ran", 0)
 		if err = utils.SleepContextPerturb(ctx, w.conf.Interval); err != nil {
 			return err
 		}
